@@ -608,6 +608,22 @@ int parse_instruction_6809(AsmContext *asm_context, char *instr)
     }
   } while (0);
 
+  // A forward reference can't be sized in pass 1, so the long offset is
+  // reserved for it.  Store a flag in this address to remind pass 2 to pick
+  // the same form even though the value is known by then.
+  if (asm_context->pass == 1)
+  {
+    if (operand.use_long == 1)
+    {
+      asm_context->memory_write(asm_context->address, 1, asm_context->tokens.line);
+    }
+  }
+    else
+  if (asm_context->memory_read(asm_context->address) == 1)
+  {
+    operand.use_long = 1;
+  }
+
 //printf("%s %d\n", instr, operand.type);
 
   n = 0;
